@@ -461,6 +461,11 @@ func runC17Live(cs CaseSpec) *CaseResult {
 		for i := 0; i < n-k; i++ {
 			t := tune
 			pusher := cs.I("pendingjoin", 0) == 1 && n-k >= 2 && i == n-k-1
+			if cs.I("passive", 0) == 1 && n-k >= 2 {
+				// the watched nodes are started without gossip (Run(false)): they only
+				// answer; validator 0 never gives up and keeps pushing events at them
+				pusher = i == 0
+			}
 			if pusher {
 				// one running validator never gives up (huge limit): it keeps pushing
 				// events at the others after they decided to suspend themselves
@@ -477,7 +482,18 @@ func runC17Live(cs CaseSpec) *CaseResult {
 			}
 		}
 		for _, l := range all {
-			l.Node.RunAsync(true)
+			passive := false
+			if cs.I("passive", 0) == 1 {
+				for _, w := range watched {
+					if w == l {
+						passive = true
+					}
+				}
+			}
+			if passive {
+				res.count("live_watched_nodes_started_without_gossip", 1)
+			}
+			l.Node.RunAsync(!passive)
 		}
 		res.count("live_validators_never_started", int64(k))
 	}
